@@ -1,7 +1,7 @@
 (* C12 -- property theorems only: statement + exact + Print Assumptions. *)
 From Coq Require Import List ZArith String Bool.
-From LJT Require Import gen.GenErrPaths model.ApiState model.ApiOps model.ErrPaths model.MemAcct proofs.MemAcctProofs
-  proofs.ApiStateProofs proofs.ApiHistoryProofs proofs.ApiKindsProofs proofs.ApiDestProofs.
+From LJT Require Import gen.GenErrPaths model.ApiState model.ApiOps model.ApiUniverse model.ErrPaths model.MemAcct proofs.MemAcctProofs
+  proofs.ApiStateProofs proofs.ApiHistoryProofs proofs.ApiKindsProofs proofs.ApiDestProofs proofs.ApiFrameProofs.
 Import ListNotations.
 Local Open Scope Z_scope.
 Local Open Scope string_scope.
@@ -291,3 +291,44 @@ Print Assumptions C12_every_call_returns_idle.
 Theorem C12_source_process_flags : cset_targets (process_flags true) = process_flags_fields.
 Proof. exact process_flags_source. Qed.
 Print Assumptions C12_source_process_flags.
+
+(* the universe: every function turbojpeg.h exports (list regenerated from the header) is the subject of a model kind
+   (and so of C12_history_independence), a life-cycle function, stateless w.r.t. the instance, or a wrapper that assigns
+   only parameter members and calls classified functions (call graph and member writes regenerated from turbojpeg.c);
+   conversely every function a kind claims to model is exported.  A function added to the API without a kind
+   breaks this obligation. *)
+Theorem C12_exported_functions_classified :
+  (forall n, In n exported_functions -> classify 8 n <> Unclassified) /\ universe_ok = true /\
+  (forall k, In k all_kinds).
+Proof. exact (conj universe_classified (conj universe_lemma all_kinds_complete)). Qed.
+Print Assumptions C12_exported_functions_classified.
+
+(* TJPARAM_MAXMEMORY boundary (F40): the idle totals of two instances differ by exactly the difference of their
+   permanent pools (nothing of the image pools of earlier calls remains) -- but that difference is not zero in
+   general, so equality with a fresh instance is refuted (witness on the library: corpus/C12, op `mb`) *)
+Theorem C12_idle_totals_differ_by_permanent_pool :
+  forall base (l1 l2 : list mop),
+  let m1 := mrun true true (l1 ++ [Abort]) (mm0 base) in
+  let m2 := mrun true true (l2 ++ [Abort]) (mm0 base) in
+  total m1 - total m2 = perm m1 - perm m2.
+Proof. exact idle_totals_differ_by_permanent_pool. Qed.
+Print Assumptions C12_idle_totals_differ_by_permanent_pool.
+Theorem C12_idle_total_equals_fresh_refuted :
+  exists l1 l2, total (mrun true true (l1 ++ [Abort]) (mm0 1863)) <> total (mrun true true (l2 ++ [Abort]) (mm0 1863)).
+Proof. exact idle_total_equality_refuted. Qed.
+Print Assumptions C12_idle_total_equals_fresh_refuted.
+
+(* getters after failed calls (for EVERY state of the instance, no invariant needed): a call that fails in its
+   argument checks, and tj3DecompressHeader / tjDecompressHeader3 failing inside jpeg_read_header, leave every member the
+   getters report (all tj3Get parameters, scaling factor, cropping region, ICC size) exactly as it was.  Proved by
+   resolving the failure-stage tests of the program for that stage (pe, shown equivalent) and a frame lemma. *)
+Theorem C12_failed_arguments_keep_getters :
+  forall c x, In (c_kind c) args_kinds -> env_of (c_args c) "fail"%string = S_ARGS ->
+  forall f, In f getter_fields -> sc (xs (step faithful c x)) f = sc (xs x) f.
+Proof. exact failed_args_keep_getters. Qed.
+Print Assumptions C12_failed_arguments_keep_getters.
+Theorem C12_failed_header_keeps_getters :
+  forall c x s v, c_kind c = KHeader s v -> env_of (c_args c) "fail"%string = S_HDR ->
+  forall f, In f getter_fields -> sc (xs (step faithful c x)) f = sc (xs x) f.
+Proof. exact failed_header_keeps_getters. Qed.
+Print Assumptions C12_failed_header_keeps_getters.
